@@ -14,6 +14,91 @@ from . import vnet
 from .vnet import HarnessError
 
 
+class DeadlockDetected(BaseException):
+    """raised inside an audited thread that waits for a lock nobody can release any more"""
+
+
+_ALL_LOCKS = []
+
+
+class SchedLock:
+    """Stands in for threading.Lock / RLock inside the audited code.  Waiting for a held lock is a scheduling event: the waiter is
+    neither running nor enabled until the lock is released; when every unfinished worker waits, that is a deadlock - it is recorded on
+    the World and the waiters are ended with DeadlockDetected so that the execution terminates."""
+
+    def __init__(self, reentrant=False):
+        self._m = threading.Lock()
+        self._owner = None
+        self._depth = 0
+        self._reentrant = reentrant
+        _ALL_LOCKS.append(self)
+
+    def _try(self):
+        me = threading.get_ident()
+        with self._m:
+            if self._depth == 0:
+                self._owner, self._depth = me, 1
+                return True
+            if self._reentrant and self._owner == me:
+                self._depth += 1
+                return True
+            return False
+
+    def _reset(self):
+        with self._m:
+            self._owner, self._depth = None, 0
+
+    def acquire(self, blocking=True, timeout=-1):
+        if self._try():
+            return True
+        if not blocking:
+            return False
+        w = vnet.current()
+        s = w.sched if w is not None else None
+        label = s.by_thread.get(threading.get_ident()) if s is not None else None
+        if s is not None and label is not None:
+            return s.lock_wait(label, self)
+        # outside the worker pool (single-target runs, the tool's main thread): wait in real time, briefly
+        limit = _time.time() + (timeout if timeout is not None and timeout >= 0 else 1.5)
+        while _time.time() < limit:
+            if self._try():
+                return True
+            _time.sleep(0.002)
+        if timeout is not None and timeout >= 0:
+            return False
+        if w is not None:
+            w.deadlock = (getattr(w, 'deadlock', None) or []) + ['thread outside the worker pool waits for a lock that is never released']
+        raise DeadlockDetected('lock never released')
+
+    def release(self):
+        with self._m:
+            if self._depth == 0:
+                raise RuntimeError('release unlocked lock')
+            self._depth -= 1
+            if self._depth:
+                return
+            self._owner = None
+        w = vnet.current()
+        s = w.sched if w is not None else None
+        if s is not None:
+            s.lock_released(self)
+
+    def locked(self):
+        return self._depth > 0
+
+    def __enter__(self):
+        self.acquire()
+        return self
+
+    def __exit__(self, *a):
+        self.release()
+
+
+def reset_locks():
+    for l in _ALL_LOCKS:
+        l._reset()
+
+
 class Scheduler:
     def __init__(self, prefix=(), gate_kinds=('resolve', 'connect', 'recv', 'select'), wall_limit=30.0):
         self.prefix = list(prefix)
@@ -33,6 +118,31 @@ class Scheduler:
         self.wall_limit = wall_limit
         self.main_done = False
         self.error = None
+        self.blocked = {}           # label -> SchedLock waited for
+        self.deadlock = []          # labels ended because nobody could release the lock they waited for
+
+    # ---- locks of the audited code
+    def lock_wait(self, label, lock):
+        while True:
+            ev = threading.Event()
+            with self.cv:
+                if lock._try():
+                    return True
+                self.blocked[label] = lock
+                self.go[label] = ev
+                self.cv.notify_all()
+            if not ev.wait(self.wall_limit * 4):
+                raise HarnessError('scheduler: %r never released from a lock wait' % (label,))
+            if label in self.deadlock:
+                raise DeadlockDetected('worker %r waits for a lock that no thread can release' % (label,))
+
+    def lock_released(self, lock):
+        with self.cv:
+            for label, l in list(self.blocked.items()):
+                if l is lock:
+                    del self.blocked[label]
+                    self.parked[label] = 'lock'        # enabled again: the schedule decides when it retries
+            self.cv.notify_all()
 
     # ---- called from pool threads
     def _park(self, label, kind):
@@ -88,7 +198,7 @@ class Scheduler:
                 while True:
                     if self.main_done and not self.all_submitted:
                         return          # the tool ended before handing work to the pool
-                    if self.all_submitted and len(self.parked) == self._expected_parked():
+                    if self.all_submitted and len(self.parked) + len(self.blocked) == self._expected_parked():
                         break
                     if self.all_submitted and self.finished >= self.submitted:
                         break
@@ -97,6 +207,15 @@ class Scheduler:
                             self.parked, self.submitted, self.finished, self.k_max))
                 if self.finished >= self.submitted:
                     return
+                if not self.parked and self.blocked:
+                    # every unfinished worker waits for a lock: deadlock.  End the waiters so that the execution terminates.
+                    w = vnet.current()
+                    for label in sorted(self.blocked, key=lambda l: l[0]):
+                        self.deadlock.append(label)
+                        self.go.pop(label).set()
+                    self.blocked.clear()
+                    deadline = _time.time() + self.wall_limit
+                    continue
                 enabled = sorted(self.parked, key=lambda l: l[0])
                 still = self.running in self.parked
                 if still:
@@ -164,8 +283,21 @@ futures_facade = _Facade(_cf, ThreadPoolExecutor=_Exec, as_completed=_as_complet
 concurrent_facade = _Facade(_concurrent, futures=futures_facade)
 
 
+threading_facade = _Facade(threading, Lock=SchedLock, RLock=(lambda: SchedLock(reentrant=True)))
+_REAL_LOCK_TYPES = (type(threading.Lock()), type(threading.RLock()))
+
+
 def install(mods):
     mods['ssh_audit'].concurrent = concurrent_facade
+    # locks of the audited code: created at run time through the facade; those created at import time (module / class level) are replaced
+    for mod in mods.values():
+        if isinstance(vars(mod).get('threading'), type(threading)):
+            mod.threading = threading_facade
+        owners = [mod] + [c for c in vars(mod).values() if isinstance(c, type) and c.__module__ == mod.__name__]
+        for o in owners:
+            for name, v in list(vars(o).items()):
+                if isinstance(v, _REAL_LOCK_TYPES):
+                    setattr(o, name, SchedLock(reentrant=isinstance(v, _REAL_LOCK_TYPES[1])))
 
 
 def run_scheduled(run_cli, argv, world, prefix=(), gate_kinds=('resolve', 'connect', 'recv', 'select'), **kw):
